@@ -2,7 +2,9 @@
 rebuilt against the regenerated tables/grammar and its assumptions are audited; (2) the
 correspondence checks the theorems depend on; (3) the property-level search on the real
 code; (4) verdict and evidence."""
+import hashlib
 import json
+import pickle
 import os
 import random
 import re
@@ -31,6 +33,62 @@ def outside_section_decls(txt):
         elif depth == 0 and SECTION_ONLY.match(line):
             hits.append(line.strip()[:60])
     return hits
+
+
+RUST_WORDS = ["as", "async", "await", "break", "const", "continue", "crate", "dyn", "else", "enum", "extern", "false", "fn",
+              "for", "if", "impl", "in", "let", "loop", "match", "mod", "move", "mut", "pub", "ref", "return", "Self", "self",
+              "static", "struct", "super", "trait", "true", "type", "union", "unsafe", "use", "where", "while", "abstract",
+              "become", "box", "do", "final", "macro", "override", "priv", "try", "typeof", "unsized", "virtual", "yield",
+              "gen", "raw", "safe", "macro_rules", "TRUE", "FALSE", "True", "default", "void", "bool", "string", "opaque"]
+
+
+def probe_texts():
+    """one tiny specification per (candidate spelling, position).  Candidates: every identifier-
+    or spelling-like string literal anywhere in /repo/src, the Rust keyword dictionary, every
+    string of the Tables.v in use.  Whatever table the emitters consult, in whatever syntactic
+    form it is kept, its entries are among the candidates."""
+    cands = set(RUST_WORDS)
+    for f in xv.src_files():
+        if f.endswith(".rs"):
+            cands.update(re.findall(r'"([A-Za-z_][A-Za-z0-9_]*(?: [A-Za-z_][A-Za-z0-9_]*)?)"', open(f).read()))
+    tv = os.path.join(xv.COQ, "theories/Model/Tables.v")
+    if os.path.exists(tv):
+        cands.update(re.findall(r'"([A-Za-z_][A-Za-z0-9_]*(?: [A-Za-z_][A-Za-z0-9_]*)?)"', open(tv).read()))
+    texts = []
+    for c in sorted(cands):
+        if len(c) > 40:
+            continue
+        if " " not in c:
+            texts += ["struct probe_s { hyper %s; };" % c,
+                      "typedef hyper %s;" % c,
+                      "union probe_l switch (int k) { case %s: void; case 2: int %s; };" % (c, c),
+                      "enum probe_e { %s = 1 };" % c,
+                      "const %s = 3; struct probe_c { int a[%s]; };" % (c, c)]
+        texts += ["struct probe_t { %s x; %s y<>; };" % (c, c),
+                  "union probe_u switch (%s k) { case 1: void; };" % c]
+    return texts
+
+
+def tables_fallback():
+    key = hashlib.sha256((xv.src_hash() + open(os.path.join(xv.COQ, "theories/Model/Tables.v")).read()).encode()).hexdigest()[:16]
+    path = os.path.join(xv.WORK, "cache", "tables_probe_%s.pkl" % key)
+    if os.path.exists(path):
+        return pickle.load(open(path, "rb"))
+    texts = probe_texts()
+    obs = xv.run_front(texts, "tables_probe")
+    n1, d1 = xv.k1(obs, "tables_probe")
+    n2, d2, bad = xv.k2(obs, "tables_probe")
+    detail = ""
+    if d1:
+        detail = "K1 code %d on: %s" % (d1[0][1], obs[d1[0][0]]["text"])
+    elif d2:
+        detail = "K2 code %d on: %s" % (d2[0][2], obs[d2[0][0]]["text"])
+    elif bad:
+        detail = "header differs"
+    res = (not d1 and not d2 and not bad, n1, n2, detail)
+    os.makedirs(os.path.dirname(path), exist_ok=True)
+    pickle.dump(res, open(path, "wb"))
+    return res
 
 
 class Run:
@@ -78,8 +136,20 @@ class Run:
             self.oblige("translators", False, str(e))
             return
         built = r.returncode == 0
-        self.oblige("translators regenerate Tables.v and Grammar.v from the current source",
-                    not xv.TRANSLATOR_ERRORS, "; ".join(xv.TRANSLATOR_ERRORS))
+        errs = list(xv.TRANSLATOR_ERRORS)
+        if errs and built and all(e.startswith("gen_tables") for e in errs):
+            # the table translator reads source *shapes*; when a shape has changed the tables in
+            # use (last generated) are validated against the real generator instead
+            try:
+                ok, n1, n2, detail = tables_fallback()
+            except TieBroken as e:
+                ok, n1, n2, detail = False, 0, 0, str(e)
+            self.cov["tables_translator"] = "could not read the source (%s); fell back to the behavioural tie" % "; ".join(errs)
+            self.oblige("Tables.v is current: translator failed on a changed source shape, the tables in use agree with the real "
+                        "generator on every candidate spelling (K1 on %d, K2 on %d probe specifications)" % (n1, n2), ok,
+                        "; ".join(errs) + " -- " + detail)
+        else:
+            self.oblige("translators regenerate Tables.v and Grammar.v from the current source", not errs, "; ".join(errs))
         if not built:
             # which file failed?
             m = re.findall(r'File "\./(theories/[^"]+)", line (\d+)', r.stdout)
@@ -497,6 +567,29 @@ def sup_coverage(run, C):
         run.cov["specs_outside_sup_b_samples"] = outside[:5]
 
 
+def term_coverage(run, C):
+    """how many corpus specifications satisfy the decidable hypothesis of C04_terminates_decidable"""
+    import coqterm as ct
+    obs = [o for o in C["obs"] if o["ast"]["outcome"] == "ok" and o["gen_default"]["outcome"] == "ok"]
+    shards = xv.shard(obs, 8)
+
+    def runit(sh_i):
+        si, sh = sh_i
+        body = ["From XdrProofs Require Import Termination.", "Open Scope string_scope.",
+                "Eval vm_compute in (map term_b [%s])." % ";\n".join(ct.ast(o["ast"]) for o in sh)]
+        out = xv.coq_eval("termb_%s_%d" % (run.pid, si), "\n".join(body))
+        return re.findall(r'\b(true|false)\b', out.split("=", 1)[1].split(": list")[0])
+    try:
+        vals = [v for r in xv.par(runit, list(enumerate(shards))) for v in r]
+    except (TieBroken, IndexError) as e:
+        run.cov["term_b_evaluation_failed"] = str(e)[:300]
+        return
+    run.cov["specs_satisfying_termination_hypothesis_term_b"] = "%d of %d" % (vals.count("true"), len(vals))
+    outside = [C["specs"][o["index"]][1][-120:] for o, v in zip(obs, vals) if v == "false"]
+    if outside:
+        run.cov["specs_outside_term_b_samples"] = outside[:6]
+
+
 def check_c01(run):
     run.theorem_step(["C01"])
     C = get_corpus(run)
@@ -615,6 +708,7 @@ def check_c04(run):
         return
     corpus_ties(run, C, need=("k2", "k3"))
     sup_coverage(run, C)
+    term_coverage(run, C)
     for n, c in enumerate(C["cases"]):
         l = c["real"]
         run.case((c["spec"], c["type"], c["input"]),
@@ -1271,10 +1365,13 @@ def check_c14(run):
         return
     d1 = k_front(run, obs, "c14")
     k1bad = set(n for n, _ in d1)
-    known_sites = set()
+    # a finding's site is "<file>:<fn>"; it is matched at file granularity, and only on texts on
+    # which the model panics in that file too (K1 agrees): moving a panic! into a helper function
+    # is not a new violation, a panic on a text the model does not panic on is
+    known_files = {}
     for f in run.known["findings"]:
         if f["id"] == "F11":
-            known_sites = set(f["sites"])
+            known_files = {x.split(":")[0]: x for x in f["sites"]}
     for n, o in enumerate(obs):
         a, g = o["ast"], o["gen_default"]
         run.case(o["text"], {"text": o["text"][:100], "tree": "accepted" if o["tree"] else "rejected", "ast": a["outcome"], "generate": g["outcome"]}
@@ -1288,7 +1385,8 @@ def check_c14(run):
         for what, r in (("Ast::new", a), ("generate", g)):
             if r["outcome"] == "panic":
                 site = r["site"]
-                if site in known_sites and n not in k1bad:
+                if site.split(":")[0] in known_files and n not in k1bad:
+                    site = known_files[site.split(":")[0]]
                     run.known_hit("F11:" + site, "F11 %s panics on grammar-valid text at %s (e.g. %r)" % (what, site, o["text"][:60]))
                 else:
                     run.violation("%s panics at %s on a text the grammar accepts" % (what, site), {"spec": o["text"], "site": site, "message": r.get("msg")})
@@ -1370,6 +1468,14 @@ def check_c07(run):
     if C is None:
         return
     corpus_ties(run, C, need=("k2",))
+    # the escape / spelling tables against the real generator on every candidate spelling
+    try:
+        ok, n1, n2, detail = tables_fallback()
+    except TieBroken as e:
+        ok, n1, n2, detail = False, 0, 0, str(e)
+    run.oblige("the tables in use (Tables.v) agree with the real generator on every candidate spelling in every position "
+               "(K1 on %d, K2 on %d probe specifications)" % (n1, n2), ok, detail)
+    run.cov["table_probe_specs"] = n1
     lookup = {o["index"]: o for o in C["obs"]}
     failed = dict(C["compile_failed"])
     # every specification of the corpus is in the supported subset by construction: generate must
